@@ -768,7 +768,7 @@ impl<'s> Parser<'s> {
                     "expected abbreviation with at most {} bytes, \
                          but found a longer abbreviation beginning with `{}`",
                     Abbreviation::capacity(),
-                    Bytes(&self.tz[start..i]),
+                    Bytes(&self.tz[start..start + i]),
                 ));
             }
             if !self.bump() {
@@ -827,7 +827,7 @@ impl<'s> Parser<'s> {
                     "expected abbreviation with at most {} bytes, \
                      but found a longer abbreviation beginning with `{}`",
                     Abbreviation::capacity(),
-                    Bytes(&self.tz[start..i]),
+                    Bytes(&self.tz[start..start + i]),
                 ));
             }
             if !self.bump() {
